@@ -14,9 +14,11 @@ def dimname(ax, pos):
     return f"{ax.lower()}_{pos[0]}"  # x_c, x_l, x_r, x_i, x_o
 
 
-def make_layout(axes):
-    """axes: {axname: tuple of positions} -> layout {axname: {pos: dim}}"""
-    return {ax: {p: dimname(ax, p) for p in poss} for ax, poss in axes.items()}
+def make_layout(axes, dimnames=None):
+    """axes: {axname: tuple of positions} -> layout {axname: {pos: dim}}; dimnames optionally overrides
+    the dimension name of (axis, position) - key "axis|position" (used by the renaming harness C13)"""
+    dimnames = dimnames or {}
+    return {ax: {p: dimnames.get(f"{ax}|{p}", dimname(ax, p)) for p in poss} for ax, poss in axes.items()}
 
 
 def axis_sizes(layout, nmin=2):
